@@ -126,7 +126,7 @@ Proof. vm_compute. reflexivity. Qed.
 
 Definition leak_free (p : list pos) : Prop := forall q, In q p -> ~ In q known_leaks.
 
-(* generator.go as it is now: for every nesting of forms that avoids the three leaking positions, a
+(* generator.go as it is now: for every nesting of forms (known_leaks is empty, so leak_free is trivial), a
    sub-form is compiled with Tail = true iff every step down to it is a tail position *)
 Theorem generated_flag_iff_tail_position : forall p, leak_free p ->
   exists y, path_flag tail_sites p ST = Some y /\ (y = ST <-> forallb tail_pos p = true).
@@ -156,12 +156,16 @@ Proof. exact (ok_exits known_leaks tail_sites tail_exits tail_gotos generated_ta
 Theorem generated_goto_needs_flag : forall g, In g tail_gotos -> g_in0 g = false /\ g_in1 g = true.
 Proof. exact (ok_gotos known_leaks tail_sites tail_exits tail_gotos generated_table_ok). Qed.
 
-(* ---- the three positions where the unchanged code violates the property (findings, replayed on the real
-   interpreter by the check): the flag arrives although the position is not a tail position *)
-Theorem generated_refuted_def_lhs :
-  exists p, path_flag tail_sites p ST = Some ST /\ forallb tail_pos p = false.
-Proof. exists [PBodyLast; PCondDefault; PSetLhs]. split; vm_compute; reflexivity. Qed.
+(* no position is set aside: the statements hold for every path *)
+Lemma all_leak_free : forall p, leak_free p.
+Proof. intros p q _ H. exact H. Qed.
 
-Theorem generated_refuted_include_nonlast_file :
-  exists p, path_flag tail_sites p ST = Some ST /\ forallb tail_pos p = false.
-Proof. exists [PBodyLast; PCondDefault; PIncludeNonLastFile]. split; vm_compute; reflexivity. Qed.
+(* the two defects found with this table and repaired in /repo (0c81737, 9d37ebd) stay repaired: a call as the
+   target of def / set and the forms of every included file are compiled without the flag *)
+Theorem generated_def_target_and_include_cleared :
+  forall q, In q [PDefLhs; PSetLhs; PIncludeLastFile; PIncludeNonLastFile] ->
+  pos_step tail_sites q ST = Some SF /\ pos_step tail_sites q SF = Some SF.
+Proof.
+  intros q H. simpl in H.
+  destruct H as [E|[E|[E|[E|[]]]]]; subst q; split; vm_compute; reflexivity.
+Qed.
